@@ -36,6 +36,11 @@ Definition simple_answer (a : answer) : Prop :=
 Definition conforming (s : sstate) : Prop :=
   s_in s = [] /\ s_authed s = true /\ s_faults s = [].
 
+(* the same without the assumption that no fault is planned: the server is in step and authenticated, and the
+   fault planned for the command it receives next *)
+Definition live (s : sstate) : Prop := s_in s = [] /\ s_authed s = true.
+Definition fault_now (s : sstate) : fault := find_fault (s_count s) (s_faults s).
+
 Ltac eval_beq :=
   repeat match goal with
          | |- context [beq (bs ?a) (bs ?b)] =>
@@ -89,6 +94,21 @@ Proof.
          end; try discriminate; inversion H; subst; repeat split; reflexivity.
 Qed.
 
+Lemma conforming_live : forall s, conforming s -> live s /\ fault_now s = FNone.
+Proof. intros s (A & B & C). unfold live, fault_now. rewrite C. auto. Qed.
+
+Lemma pick_count : forall s c s', pick s = (c, s') -> s_count s' = s_count s.
+Proof. intros s c s' H. unfold pick in H. destruct (s_choices s); inversion H; subst; reflexivity. Qed.
+
+Lemma exec_count : forall verb pargs s a s2, exec_command verb pargs s = Some (a, s2) -> s_count s2 = s_count s.
+Proof.
+  intros verb pargs s a s2 H. unfold exec_command in H.
+  repeat match type of H with
+         | context [if ?c then _ else _] => destruct c
+         | context [match ?x with _ => _ end] => destruct x
+         end; try discriminate; inversion H; subst; reflexivity.
+Qed.
+
 Lemma reply_bytes_spec : forall st code text s,
   exists c s', pick s = (c, s') /\ reply_bytes st code text s = (render_reply (mk_reply st code text c), s') /\
                s_in s' = s_in s /\ s_authed s' = s_authed s /\ s_faults s' = s_faults s /\
@@ -98,9 +118,9 @@ Proof.
   destruct (s_choices s) as [|c t]; eexists; eexists; repeat split.
 Qed.
 
-(* one complete simple command arriving at a conforming server *)
-Lemma srv_react_simple : forall verb args s a s2,
-  In verb simple_verbs -> conforming s ->
+(* one complete simple command arriving at a server in step, no fault planned for it *)
+Lemma srv_react_simple_gen : forall verb args s a s2,
+  In verb simple_verbs -> live s -> fault_now s = FNone ->
   srv_step verb (map decode_arg args) s = Some (a, s2) ->
   exists c s3,
     pick s2 = (c, s3) /\
@@ -110,9 +130,11 @@ Lemma srv_react_simple : forall verb args s a s2,
                        | AnsNO code => mk_reply StNO code (bs "refused") c
                        | _ => mk_reply StOK None [] c
                        end)) /\
-    conforming s3 /\ s_store s3 = s_store s2 /\ s_active s3 = s_active s2 /\ s_cfg s3 = s_cfg s.
+    live s3 /\ s_faults s3 = s_faults s /\ s_count s3 = S (s_count s) /\
+    s_store s3 = s_store s2 /\ s_active s3 = s_active s2 /\ s_cfg s3 = s_cfg s.
 Proof.
-  intros verb args s a s2 Hv (Hin & Hau & Hf) Hstep.
+  intros verb args s a s2 Hv (Hin & Hau) Hf Hstep. unfold fault_now in Hf.
+  assert (Hcount : s_count s2 = S (s_count s)) by (rewrite (exec_count _ _ _ _ _ Hstep); reflexivity).
   assert (Hsa : simple_answer a) by (eapply exec_simple_answer; eauto).
   assert (Hverb : verb <> [] /\ Forall (fun c => is_alpha c = true) verb /\ upper verb = verb).
   { unfold simple_verbs in Hv. cbn [In] in Hv.
@@ -135,7 +157,7 @@ Proof.
       assert (Hh : handle (PCmd verb (map decode_arg args) []) (upd_in [] (upd_in (command_bytes verb args) s))
                    = (render_reply (mk_reply StOK code (bs "done") c), s3)).
       { unfold handle. cbn [s_count upd_count s_faults upd_in pred].
-        rewrite Hf, find_fault_nil.
+        rewrite Hf.
         unfold simple_verbs in Hv. cbn [In] in Hv.
         assert (Hs' : upd_cmds (verb, map decode_arg args) (upd_count (upd_in [] (upd_in (command_bytes verb args) s)))
                       = booked verb (map decode_arg args) s).
@@ -148,7 +170,7 @@ Proof.
       rewrite Hh. cbn [app feed_loop].
       rewrite R1, E1. cbn. rewrite Hin. reflexivity. }
     split; [exact Hreact|].
-    unfold conforming. repeat split; congruence.
+    pose proof (pick_count _ _ _ Hp) as Hpc. unfold live. repeat split; congruence.
   - (* NO *)
     destruct (reply_bytes_spec StNO code (bs "refused") s2) as (c & s3 & Hp & Hrb & R1 & R2 & R3 & R4 & R5 & R6).
     exists c, s3. split; [exact Hp|].
@@ -162,7 +184,7 @@ Proof.
       assert (Hh : handle (PCmd verb (map decode_arg args) []) (upd_in [] (upd_in (command_bytes verb args) s))
                    = (render_reply (mk_reply StNO code (bs "refused") c), s3)).
       { unfold handle. cbn [s_count upd_count s_faults upd_in pred].
-        rewrite Hf, find_fault_nil.
+        rewrite Hf.
         unfold simple_verbs in Hv. cbn [In] in Hv.
         assert (Hs' : upd_cmds (verb, map decode_arg args) (upd_count (upd_in [] (upd_in (command_bytes verb args) s)))
                       = booked verb (map decode_arg args) s).
@@ -175,7 +197,28 @@ Proof.
       rewrite Hh. cbn [app feed_loop].
       rewrite R1, E1. cbn. rewrite Hin. reflexivity. }
     split; [exact Hreact|].
-    unfold conforming. repeat split; congruence.
+    pose proof (pick_count _ _ _ Hp) as Hpc. unfold live. repeat split; congruence.
+Qed.
+
+(* one complete simple command arriving at a conforming server *)
+Lemma srv_react_simple : forall verb args s a s2,
+  In verb simple_verbs -> conforming s ->
+  srv_step verb (map decode_arg args) s = Some (a, s2) ->
+  exists c s3,
+    pick s2 = (c, s3) /\
+    srv_react s (command_bytes verb args) =
+    (s3, render_reply (match a with
+                       | AnsOK code => mk_reply StOK code (bs "done") c
+                       | AnsNO code => mk_reply StNO code (bs "refused") c
+                       | _ => mk_reply StOK None [] c
+                       end)) /\
+    conforming s3 /\ s_store s3 = s_store s2 /\ s_active s3 = s_active s2 /\ s_cfg s3 = s_cfg s.
+Proof.
+  intros verb args s a s2 Hv Hc Hstep.
+  destruct (conforming_live s Hc) as (Hl & Hf).
+  destruct (srv_react_simple_gen verb args s a s2 Hv Hl Hf Hstep) as (c & s3 & Hp & Hr & (L1 & L2) & Hfs & _ & R).
+  exists c, s3. split; [exact Hp|]. split; [exact Hr|]. split; [|exact R].
+  destruct Hc as (_ & _ & C3). unfold conforming. repeat split; congruence.
 Qed.
 
 (* ------------------------------------------------------------------ one operation, end to end *)
